@@ -7,61 +7,43 @@ import (
 	"image/color"
 	"time"
 
-	"github.com/deepteams/webp"
+	_ "github.com/deepteams/webp"
 	"github.com/deepteams/webp/animation"
 )
 
-var _ = webp.Decode
+func pic(vals ...uint8) *image.NRGBA {
+	im := image.NewNRGBA(image.Rect(0, 0, 5, 2))
+	for i, v := range vals {
+		a := uint8(255)
+		if v == 0 {
+			a = 0
+		}
+		im.SetNRGBA(i%5, i/5, color.NRGBA{v, v, v, a})
+	}
+	return im
+}
 
 func main() {
-	mk := func(k int) *image.NRGBA {
-		img := image.NewNRGBA(image.Rect(0, 0, 8, 8))
-		for i := 0; i < 64; i++ {
-			a := uint8(255)
-			if (i+k)%3 == 0 {
-				a = 0
-			}
-			img.SetNRGBA(i%8, i/8, color.NRGBA{uint8(i * 3), uint8(k * 40), 77, a})
+	A := pic(10, 10, 10, 10, 10, 10, 10, 10, 10, 10)
+	B := pic(10, 10, 10, 10, 10, 10, 10, 10, 99, 10)
+	C := pic(10, 10, 10, 10, 10, 10, 10, 10, 99, 0)
+	var buf bytes.Buffer
+	e := animation.NewEncoder(&buf, 5, 2, &animation.EncodeOptions{Lossless: true, Quality: 75, Kmin: 3, Kmax: 5})
+	for i, p := range []*image.NRGBA{A, A, B, B, C} {
+		d := []int{7, 100, 16777214, 7, 16777214}[i]
+		if err := e.AddFrame(p, time.Duration(d)*time.Millisecond); err != nil {
+			panic(err)
 		}
-		return img
 	}
-	for _, lossless := range []bool{false, true} {
-		var buf bytes.Buffer
-		e := animation.NewEncoder(&buf, 8, 8, &animation.EncodeOptions{Quality: 75, Lossless: lossless})
-		for k := 0; k < 3; k++ {
-			if err := e.AddFrame(mk(k), 100*time.Millisecond); err != nil {
-				panic(err)
-			}
-		}
-		if err := e.Close(); err != nil {
-			panic(err)
-		}
-		a, err := animation.DecodeBytes(buf.Bytes())
-		if err != nil {
-			panic(err)
-		}
-		if err := a.DecodeFrames(); err != nil {
-			panic(err)
-		}
-		d, err := animation.NewAnimDecoder(a)
-		if err != nil {
-			panic(err)
-		}
-		k := 0
-		for d.HasNext() {
-			fr, _, err := d.NextFrame()
-			if err != nil {
-				panic(err)
-			}
-			bad := 0
-			src := mk(k)
-			for i := 0; i < 64; i++ {
-				if fr.NRGBAAt(i%8, i/8).A != src.NRGBAAt(i%8, i/8).A {
-					bad++
-				}
-			}
-			fmt.Println("lossless", lossless, "frame", k, "alpha mismatches", bad)
-			k++
-		}
+	if err := e.Close(); err != nil {
+		panic(err)
+	}
+	a, err := animation.DecodeBytes(buf.Bytes())
+	if err != nil {
+		panic(err)
+	}
+	a.DecodeFrames()
+	for i, f := range a.Frames {
+		fmt.Println(i, f.OffsetX, f.OffsetY, f.Image.Bounds(), "dur", f.Duration, "blend", f.Blend, "dispose", f.Dispose, f.Image.(*image.NRGBA).Pix)
 	}
 }
